@@ -48,7 +48,7 @@ func c15Setup(c *Ctx) (*world.World, run.Env) {
 	if c.T.Weighted("c15.src", 1, 3) == 0 {
 		w = pickWorld(c, worldOpts{CorpusWeight: 1})
 	} else {
-		w = world.Generate(c.T, world.GenOpts{MinRecs: 2, MaxRecs: 10, Encodings: true, Family: []string{"", "collide"}[c.T.Intn("c15.family", 2)]})
+		w = genWorld(c, world.GenOpts{MinRecs: 2, MaxRecs: 10, Encodings: true, Family: []string{"", "collide"}[c.T.Intn("c15.family", 2)]})
 		c.Count("world.format."+w.Format, 1)
 	}
 	c.SigMix(w.Hash())
@@ -135,7 +135,7 @@ func runC15(c *Ctx) []Violation {
 		case 0, 1, 2: // another transform: complete, abandoned mid-stream, or ended by an I/O fault
 			var o *world.World
 			if c.T.Bool("c15.h.sameformat") {
-				o = world.Generate(c.T, world.GenOpts{Formats: []string{w.Format}, MaxRecs: 6})
+				o = genWorld(c, world.GenOpts{Formats: []string{w.Format}, MaxRecs: 6})
 			} else {
 				o = pickWorld(c, worldOpts{CorpusWeight: 1, GenWeight: 2})
 			}
